@@ -26,6 +26,8 @@ M = "partitura.utils.music"
 
 
 def run(ctx):
+    from ..rules import round5 as _R5e
+    _R5e.rule_collections_unbounded(ctx)
     from ..rules import round5 as _R5
     _R5.rule_pitch_linear(ctx)
     from ..rules import extra as _X5
